@@ -5,10 +5,10 @@
 tag="$1"; src="$2"; tier="$3"; shift 3
 cd /verif
 for p in "$@"; do
-  rm -rf "failures/$p"
-  PYTHONPATH="$src" VERIF_PYGQL_SRC="$src" VERIF_EVIDENCE_DIR="/tmp/sc/ev.h$$" bin/check "$p" --tier "$tier" >/dev/null 2>&1
+  fd="/tmp/sc/fail.h$$"; rm -rf "$fd"
+  PYTHONPATH="$src" VERIF_PYGQL_SRC="$src" VERIF_EVIDENCE_DIR="/tmp/sc/ev.h$$" VERIF_FAILURES_DIR="$fd" VERIF_NO_REPLAYS=1 bin/check "$p" --tier "$tier" >/dev/null 2>&1
   n=0; k=0
-  for f in failures/$p/*.json; do
+  for f in $fd/$p/*.json; do
     [ -f "$f" ] || continue
     n=$((n+1))
     out=$(bin/check "$p" --replay "$f" 2>&1)
@@ -19,4 +19,4 @@ for p in "$@"; do
   done
   echo "$tag $p failing-buckets=$n kept=$k"
 done
-rm -rf "/tmp/sc/ev.h$$"
+rm -rf "/tmp/sc/ev.h$$" "/tmp/sc/fail.h$$"
